@@ -265,7 +265,7 @@ fn batch(mode: &'static str, tier: &str) -> i32 {
             ("c18", _) => 5_000,
             (_, "thorough") => 30_000,
             (_, "smoke") => 100,
-            _ => 1_000,
+            _ => 3_000,
         },
     );
     let nw = simcore::workers().max(1) as u64;
